@@ -176,7 +176,7 @@ func c13Nontrivial(text string, forms []int) bool {
 	return esc && special
 }
 
-var c13Alphabet = []string{"a", " ", "'", "\"", "\\", "\n", "\r", "\t", "\b", "\f", "\v", "\x00", "\u2028", "\u2029", "\u0085", "\uff07", "\uff02", "\u2019", "\uff3c", "_", "$", "é", "ÿ", "中", "￿", "😀", "\xff", "\x80", "x", "u", "0", "n", "1", "\x7f", "\x1b"}
+var c13Alphabet = []string{"a", " ", "'", "\"", "\\", "\n", "\r", "\t", "\b", "\f", "\v", "\x00", "\u2028", "\u2029", "\u0085", "\uff07", "\uff02", "\u2019", "\uff3c", "_", "$", "\u202e", "\u2066", "\u200d", "é", "ÿ", "中", "￿", "😀", "\xff", "\x80", "x", "u", "0", "n", "1", "\x7f", "\x1b"}
 
 // TestC13Exhaustive: all texts of length <=2 over the alphabet x all escape
 // choices x both quotes x hex case; plus the unterminated variants.
@@ -261,6 +261,15 @@ var c13Confusables = func() []rune {
 		0x2216, 0x29F5, 0x29F9, 0xFE68, 0x2044, 0x2215, 0x00A0, 0x200B, 0x2028, 0x2060, 0xFEFF}
 	for r := rune(0xFF01); r <= 0xFF5E; r++ { // full-width ASCII
 		out = append(out, r)
+	}
+	// invisible and formatting characters: soft hyphen, Arabic letter mark, zero-width space / joiners, directional
+	// marks, embeddings, overrides and isolates, word joiner and invisible operators, interlinear annotation marks,
+	// variation selectors, tag characters, a combining mark, a private-use and a non-character code point
+	for _, rg := range [][2]rune{{0xAD, 0xAD}, {0x61C, 0x61C}, {0x180E, 0x180E}, {0x200B, 0x200F}, {0x202A, 0x202E}, {0x2060, 0x2064}, {0x2066, 0x206F}, {0xFFF9, 0xFFFB},
+		{0xFE00, 0xFE0F}, {0xE0001, 0xE0001}, {0xE0020, 0xE0022}, {0x301, 0x301}, {0xE000, 0xE000}, {0xFFFE, 0xFFFF}, {0x1D173, 0x1D17A}, {0x10FFFF, 0x10FFFF}} {
+		for r := rg[0]; r <= rg[1]; r++ {
+			out = append(out, r)
+		}
 	}
 	return out
 }()
